@@ -103,7 +103,7 @@ func buildFlavour(root, id, flavour string) (string, error) {
 	if !ok {
 		return "", fmt.Errorf("unknown flavour %q", flavour)
 	}
-	binDir := filepath.Join(root, "bin", id)
+	binDir := filepath.Join(root, "bin", id+os.Getenv("VERIF_BINTAG"))
 	os.MkdirAll(binDir, 0o755)
 	bin := filepath.Join(binDir, "verif."+flavour)
 	args := append([]string{"build"}, flags...)
